@@ -10,6 +10,8 @@ def main():
     roots = searches.root_positions()
     walkp = searches.walk_positions(chk, 100 if q else 2500)
     mates = searches.mate_positions(chk, [chk.seed % 7, (chk.seed + 3) % 7] if q else list(range(7)), 40 if q else 4)
+    if len(mates) < 50:
+        raise vlib.ToolError("Gen_Mates produced only %d positions" % len(mates))
     m1 = [m for m in mates if m["m1"]]
     rng.shuffle(mates)
     mates = mates[:250 if q else 8000]
